@@ -334,12 +334,13 @@ def while_tail(spec, draw, st):
 
 
 def call_once_head(spec, draw, st):
-    """a CALL_ONCE operator in front of everything: an initialisation subgraph without inputs and outputs that holds a constant and one operator"""
+    """a CALL_ONCE operator in front of everything: an initialisation subgraph without inputs that holds a constant and one operator whose result is the subgraph's output
+    (a subgraph whose operators reach no output at all - possible only with resource-variable operators, which are not generated - is outside this generator)"""
     if spec.get("subgraphs"):
         return None
     init = dict(subgraph_name="init", tensors=[dict(name="init_k", shape=[1, 4], dtype="int8", scale=0.5, zp=0, data=dict(seed=draw(st.integers(0, 999)), lo=-50, hi=50)),
                                                  dict(name="init_t", shape=[1, 4], dtype="int8", scale=0.5, zp=0, data=None)],
-                ops=[dict(code="RELU", inputs=[0], outputs=[1], opts=None, version=1, custom_code=None, custom_options=None)], inputs=[], outputs=[])
+                ops=[dict(code="RELU", inputs=[0], outputs=[1], opts=None, version=1, custom_code=None, custom_options=None)], inputs=[], outputs=[1])
     spec["ops"].insert(0, dict(code="CALL_ONCE", inputs=[], outputs=[], opts=dict(table="CallOnceOptions", fields=dict(InitSubgraphIndex=1)), version=1, custom_code=None, custom_options=None))
     spec["subgraphs"] = [init]
     return "call-once-head"
